@@ -520,6 +520,128 @@ def asm_sessions(rng, nxt, scale=1):
         out.append(asm_bin_session(rng, nxt(), roles, [rng.choice(ASM_FORMS[:2]), rng.choice(ASM_FORMS)]))
     return out
 
+# ------------------------------------------------------------------ directed family: declaration ORDER of influences
+# An operand W whose real and imaginary component vectors have chosen key patterns: tokens declared in sequence order
+#   S  a real leaf shared by both parts      (W += cj*a : weight 0 in Re W, cj.imag in Im W)
+#   R  a real leaf of the real part only      (W += r)
+#   P  a complex pair: Re-only and Im-only key, adjacent   (W +-= z)
+#   Q  a complex pair that belongs to a SECOND operand V = sum(cj*S) + sum(Q)
+# in each of the three vector kinds: u (independent leaves), d (dependent leaves), i (declared intermediates), or mixed.
+# E.g. S P S gives Re W ~ (a, re z, d), Im W ~ (a, im z, d): same length, same first and last key, different in between.
+import itertools
+ORD_KINDS = ['u', 'd', 'i', 'm']
+
+def ord_sequences(maxlen=3, alphabet='SRP'):
+    out = []
+    for n in range(1, maxlen + 1):
+        out += [''.join(t) for t in itertools.product(alphabet, repeat=n)]
+    return out
+
+def _ord_leaf(s, rng, tok, kind, k):
+    """declare the leaf of one token; returns ('r'|'c', slot)"""
+    kd = rng.choice(['u', 'd', 'i']) if kind == 'm' else kind
+    x = [0.5, -0.75, 1.25, 2.0, -1.5][k % 5]
+    if tok in 'SR':
+        n0 = len(s.slots)
+        if kd == 'u': s.ureal(x, 0.1 * (k + 1)); return ('r', n0)
+        if kd == 'd': s.ureal(x, 0.1 * (k + 1), math.inf, indep=False); return ('r', n0)
+        s.ureal(x, 0.1 * (k + 1)); s.bin('mul', ('ref', n0), ('num', 1.5)); s.result(n0 + 1); return ('r', n0 + 2)
+    z = complex(x, 3.0 - k)
+    before = set(s.cplx_slots())
+    if kd == 'u': s.ucomplex(z, (0.2, 0.3))
+    elif kd == 'd': s.ucomplex(z, (0.2, 0.3), math.inf, indep=False)
+    else:
+        s.ucomplex(z, (0.2, 0.3)); z0 = max(s.cplx_slots())
+        s.cbin('mul', ('c', z0), ('n', 2.0)); s.cresult(max(s.cplx_slots()))
+    return ('c', max(i for i in s.cplx_slots() if i not in before))
+
+def _ord_build(s, rng, leaves, toks, own):
+    """fold the tokens into one complex operand: shared S leaves, plus the tokens in `own`"""
+    W = None
+    def lastc(before):
+        new = [i for i in s.cplx_slots() if i not in before]
+        return new[-1] if new else None
+    for tok, lf in zip(toks, leaves):
+        if tok != 'S' and tok not in own: continue
+        before = set(s.cplx_slots())
+        if tok == 'S':
+            cj = rng.choice([2j, 0.5j, -1.5j]) if (isinstance(s.slots[lf[1]], s.UR) and s.slots[lf[1]].is_intermediate) else rng.choice([1j, 2j, -1.5j])
+            s.cbin('mul', ('n', cj), lf) if rng.random() < 0.5 else s.cbin('mul', lf, ('n', cj))
+            t = lastc(before)
+            if t is None: continue
+            term = ('c', t)
+        else:
+            term = lf
+        if W is None:
+            if term[0] == 'c': W = term[1]
+            else:
+                before = set(s.cplx_slots()); s.cbin('add', term, ('n', 0j)); W = lastc(before)
+            continue
+        before = set(s.cplx_slots())
+        f = 'add' if tok != 'P' or rng.random() < 0.6 else 'sub'
+        if rng.random() < 0.5 or f == 'sub': s.cbin(f, ('c', W), term)
+        else: s.cbin(f, term, ('c', W))
+        w2 = lastc(before)
+        if w2 is not None: W = w2
+    return W
+
+def ord_session(rng, ctx, seqs, kinds, two=False):
+    s = CSession(ctx); s.tag = 'order'
+    for toks, kind in zip(seqs, kinds):
+        leaves = [_ord_leaf(s, rng, t, kind, k) for k, t in enumerate(toks)]
+        W = _ord_build(s, rng, leaves, toks, 'RP')
+        if W is None: continue
+        V = _ord_build(s, rng, leaves, toks, 'Q') if two else None
+        ins = []
+        for lf in leaves:
+            if lf not in ins: ins.append(lf)
+        def q(y, real_y=False):
+            for x in ins:
+                Y = ('r', y) if real_y else ('c', y)
+                s.csens(Y, x) if rng.random() < 0.5 else None
+                s.cucomp(Y, x)
+        q(W)
+        k = rng.choice([2 + 1j, -0.7 + 1.9j, 0.5 - 2j])
+        ops = [('mul', ('c', W), ('n', k)), ('mul', ('n', k), ('c', W)), ('div', ('c', W), ('n', k)), ('div', ('n', k), ('c', W)),
+               ('pow', ('c', W), ('n', 2)), ('mul', ('c', W), ('c', W)), ('mul', ('c', W), ('n', 2.5)), ('sub', ('n', 1j), ('c', W))]
+        P = [lf for lf, t in zip(leaves, toks) if t == 'P']
+        if P: ops += [('mul', ('c', W), P[0]), ('div', P[-1], ('c', W))]
+        Rr = [lf for lf, t in zip(leaves, toks) if t in 'SR']
+        if Rr: ops += [('mul', ('c', W), Rr[0]), ('div', Rr[-1], ('c', W)), ('pow', ('c', W), Rr[0])]
+        if V is not None:
+            ops = [('mul', ('c', W), ('c', V)), ('div', ('c', W), ('c', V)), ('mul', ('c', V), ('c', W)), ('sub', ('c', V), ('c', W)),
+                   ('pow', ('c', W), ('c', V)), ('mul', ('c', V), ('n', k))] + ops[:4]
+        rng.shuffle(ops)
+        for f, A, B in ops[:6 if not two else 7]:
+            n0 = len(s.slots); s.cbin(f, A, B)
+            if isinstance(s.slots[n0], s.UR) and s.cobj(n0) is not None: q(n0)
+        for f in rng.sample(['exp', 'conjugate', 'sqrt', 'sin', 'log', 'neg', 'atan', 'magnitude', 'mag_squared', 'phase'], 3):
+            n0 = len(s.slots); s.cun(f, W)
+            if isinstance(s.slots[n0], s.UR): q(n0, real_y=f in REAL_RESULT)
+    s.heap_ok = s.check_heap(); s.close()
+    return s
+
+def ord_sessions(rng, nxt, tier='quick'):
+    out = []
+    seqs = ord_sequences(3, 'SRP')                    # all 39 orders of up to three tokens
+    if tier != 'quick': seqs += [''.join(t) for t in itertools.product('SRP', repeat=4)]
+    rot = rng.randrange(4)
+    jobs = [(q, ORD_KINDS[(k + rot) % 4]) for k, q in enumerate(seqs)]
+    if tier != 'quick': jobs = [(q, kd) for q in seqs for kd in ORD_KINDS]
+    # the equal-length / same-ends / different-middle patterns in every vector kind, always
+    jobs += [(q, kd) for q in ('SPS', 'SPPS', 'SPRS', 'SRPS') for kd in ('u', 'd', 'i')]
+    rng.shuffle(jobs)
+    for g in range(0, len(jobs), 2):
+        out.append(ord_session(rng, nxt(), [j[0] for j in jobs[g:g + 2]], [j[1] for j in jobs[g:g + 2]]))
+    # two operands that share the S leaves and own different pairs
+    two = ['SPQS', 'SQPS', 'PSQ', 'SPSQS', 'QSPS', 'SPQ', 'PQS', 'SPQRS'] + \
+          [''.join(rng.choice('SPQR') for _ in range(rng.randint(3, 5))) for _ in range(4 if tier == 'quick' else 40)]
+    two = [q for q in two if 'P' in q and 'Q' in q]
+    for g in range(0, len(two), 2):
+        qs = two[g:g + 2]
+        out.append(ord_session(rng, nxt(), qs, [rng.choice(ORD_KINDS) for _ in qs], two=True))
+    return out
+
 # ------------------------------------------------------------------ the reusable entry point
 RULE = ('systematic: each of the 22 complex functions/unary operators at %d points (four quadrants, both sides of and ON every '
         'branch cut by exact offsets 2^-30 and signed zeros, zero, huge/small modulus) with operand kinds rotating over '
@@ -529,7 +651,10 @@ RULE = ('systematic: each of the 22 complex functions/unary operators at %d poin
         'exact-zero left operands); complex numbers ASSEMBLED from uncertain reals of every role pair (elementary / dependent / ensemble / '
         'intermediate / nested intermediate / constant / temporary, so the two components carry different u, d, i key sets, one possibly '
         'empty) through every unary function and binary operator (both operands assembled, or with ucomplex / ureal / number, either side) '
-        'with sensitivity and u_component w.r.t. every elementary AND intermediate input; degrees of freedom: willink_hall and the real welch_satterthwaite through complex pairs '
+        'with sensitivity and u_component w.r.t. every elementary AND intermediate input; a directed family enumerating the relative '
+        'DECLARATION ORDER of shared / real-part-only / complex-pair influences (all orders of up to 3 tokens, the equal-length same-ends '
+        'different-middle patterns, two operands sharing leaves) in the u, d and i vectors, through * / ** + - and functions, every input queried; '
+        'degrees of freedom: willink_hall and the real welch_satterthwaite through complex pairs '
         '(independent / ensemble / partially used / real-ensemble inputs, every guard of UncertainComplex.set_correlation, conjugate '
         'and caches, failing dof() then dof()); plus random mixed programs with a malformed stream; after every operation the value and '
         'the u/d/i component vectors of both component reals, reporting.sensitivity and u_component (4-tuples), x/u/v/r/df reads and '
@@ -541,8 +666,8 @@ def build_sessions(rng, profile, tier='quick', n=None):
     def nxt():
         ctx[0] += 1; return ctx[0]
     reps = 1 if tier == 'quick' else 6
-    want = {'all': ('fun', 'op', 'promo', 'asm', 'dof', 'rand'), 'assembled': ('asm',), 'functions': ('fun',), 'operators': ('op',), 'random': ('rand',),
-            'dof': ('dof',), 'promotion': ('promo',), 'value': ('fun', 'op', 'promo', 'asm'), 'history': ('dof', 'rand')}[profile]
+    want = {'all': ('fun', 'op', 'promo', 'asm', 'ord', 'dof', 'rand'), 'assembled': ('asm', 'ord'), 'order': ('ord',), 'functions': ('fun',), 'operators': ('op',), 'random': ('rand',),
+            'dof': ('dof',), 'promotion': ('promo',), 'value': ('fun', 'op', 'promo', 'asm', 'ord'), 'history': ('dof', 'rand')}[profile]
     for rep in range(reps):
         if 'fun' in want:
             for f in CUNOPS:
@@ -561,6 +686,8 @@ def build_sessions(rng, profile, tier='quick', n=None):
                 sessions.append(promo_session(rng, nxt(), f, R[:3])); sessions.append(promo_session(rng, nxt(), f, R[3:]))
         if 'asm' in want:
             sessions.extend(asm_sessions(rng, nxt, 1 if profile != 'assembled' else 2))
+        if 'ord' in want and rep == 0:
+            sessions.extend(ord_sessions(rng, nxt, tier))
         if 'dof' in want:
             for v in DOF_VARIANTS:
                 for _ in range(n or (5 if profile == 'all' else 12)):
